@@ -84,7 +84,7 @@ def run(tier):
     # encoder-model conformance (tools/encconf.py): encodeText / addPadding against DMEnc over MC_DM's state space
     wrong, drift = encconf.conformance(chk, "dm", quick)
     for c in wrong + drift:
-        jobs.append(gen.enc("dm", list(c), ()))
+        jobs.append(gen.enc("dm", list(c["content"]), ()))
     evs, extras = onedim.judge(chk, drive, jobs, "TraceDM", "TraceDM.cfg", 12 if quick else 16, wanted, heap="5g", timeout=6000)
     ok = [e for e in evs if e["res"]["kind"] == "ok"]
     chk.cov["symbols_decoded"] = len(ok)
